@@ -57,6 +57,7 @@ BMulPow10(a, n) == BShiftLimbs(BMulS(a, SmallPow10(n % 4)), n \div 4)
 RECURSIVE BPow2(_)
 BPow2(n) == IF n = 0 THEN <<1>> ELSE IF n >= 13 THEN BMulS(BPow2(n - 13), 8192) ELSE BMulS(BPow2(n - 1), 2)
 BMulPow2(a, n) == IF n = 0 THEN a ELSE BMul(a, BPow2(n))
+RECURSIVE BOfInt(_)
 BOfInt(k) == IF k = 0 THEN <<>> ELSE IF k < BB THEN <<k>> ELSE <<k % BB>> \o BOfInt(k \div BB)
 \* digit values, most significant first  ->  natural
 RECURSIVE BOfDigitsFrom(_, _)
@@ -138,10 +139,10 @@ Literal(t) ==
        scale |-> (IF hasPoint THEN c - b - 1 ELSE 0) - (IF eneg THEN 0 - ev ELSE ev)]   \* value = digits * 10^-scale
 ParseUlps == 8       \* "a few ulps"
 \* r: returned float (binary32 or binary64 record), end: reported end offset (or -1 when no end pointer was passed)
-\* emin: exponent of the smallest denormal ulp, emax: 2^emax is the first value that overflows
+\* emin: exponent of the smallest denormal ulp, emax: 2^emax is the first value that overflows, pbits: significand bits
 RECURSIVE AllZero(_)
 AllZero(ds) == ds = <<>> \/ (ds[1] = 0 /\ AllZero(Tail(ds)))
-ParseErrs(t, r, end, emin, emax) ==
+ParseErrs(t, r, end, emin, emax, pbits) ==
    LET L == Literal(t) IN
    IF ~L.ok THEN (IF end # -1 /\ end # 0 THEN {"end"} ELSE {}) \cup (IF r.cls # "fin" \/ r.m # <<>> THEN {"value"} ELSE {})
    ELSE (IF end # -1 /\ end # L.end THEN {"end"} ELSE {})
@@ -153,8 +154,9 @@ ParseErrs(t, r, end, emin, emax) ==
                    IN IF mag > 320 THEN (IF r.cls = "inf" THEN {} ELSE {"overflow_not_inf"})
                       ELSE IF mag < -340 THEN (IF r.cls = "fin" /\ (r.m = <<>> \/ r.e = emin) THEN {} ELSE {"underflow_not_zero"})
                       ELSE IF r.cls = "inf" THEN
-                           \* acceptable only if the literal is at least 2^emax * (1 - 2^-25)
-                           (IF Within(BPow2(25), emax - 25, D, L.scale, 0, 0, 0) \/ ~BLeq(BMulPow10(D, MaxI(0 - L.scale, 0)), BMulPow10(BPow2(MaxI(emax, 0)), MaxI(L.scale, 0)))
+                           \* overflow is within tolerance iff the literal is not more than ParseUlps ulps (of the top binade) below 2^emax
+                           (IF Within(BPow2(pbits), emax - pbits, D, L.scale, 0, ParseUlps, emax - pbits)
+                               \/ ~BLeq(BMulPow10(D, MaxI(0 - L.scale, 0)), BMulPow10(BPow2(emax), MaxI(L.scale, 0)))
                             THEN {} ELSE {"value"})
                       ELSE IF r.cls # "fin" THEN {"value"}
                       ELSE (IF (r.neg = 1) # L.neg THEN {"sign"} ELSE {})
